@@ -174,6 +174,9 @@ def jobs_for(pid, tier, seed):
                       thread_mode=True, prefix=(('get', 'T2', 0),), task_ctl={'T1': (('resize', 2), ('resize', 0))}, cancel=False, take=False, probe=False, lifo=False, max_gets=1, max_size_concrete=1))
         J.append(mfam('thread level: retain() racing close() (1 idle object, 1 out)', ['C06', 'C09'], 12 if q else 16, tasks=2, env={'create': ('ok',), 'recycle': ('ok',)}, ctl=('close', 'retain'), max_ctl=2,
                       thread_mode=True, prefix=(('get', 'T1', 0), ('get', 'T2', 0), ('drop', 'T1', 0)), cancel=False, take=False, probe=False, lifo=False, max_gets=1, max_size_concrete=2))
+        J.append(mfam('thread level: close() on a task thread racing retain() while a waiter holds the assigned permit of the idle object (max_size 1; callbacks under the lock are schedule points iff the crate probes locks)',
+                      ['C06'], 14 if q else 18, tasks=2, env={'create': ('ok',), 'recycle': ('ok',)}, ctl=('retain',), max_ctl=1, thread_mode=True,
+                      prefix=(('get', 'T2', 0), ('get', 'T1', 0), ('drop', 'T2', 0)), task_ctl={'T2': (('close',),)}, cancel=True, take=False, probe=False, lifo=False, max_gets=1, max_size_concrete=1))
     elif pid == 'C07':
         E = {'create': OE, 'recycle': OE}
         J.append(mfam('2 tasks + 2 resizes (targets 0..3), take/return', ['C07'], 6 if q else 8, tasks=2, env={'create': ('ok',), 'recycle': ('ok',)}, ctl=('resize',), max_ctl=2, cancel=False, lifo=False))
